@@ -16,6 +16,7 @@ RULE = ("cases: (operator, operands, platform, protocol, spelling, port_nr) port
         "through items/ports/sport on one object. Oracle: refsem interval sets + an independent "
         "range-string decoder; write-back must leave (line, operator, items, set(ports), sport) unchanged. "
         "Non-trivial: set size >= 2 or an operand on a boundary; histories: >= 2 different views used")
+RULE += ". Directed classes added after the seeded-change rounds: a caller edits a list handed out by a getter, then a new object from the same text is judged; port expressions on objects without a tcp/udp protocol"
 ASSUMPTIONS = ["port universe is 1..65535",
                "repeated operands ('eq 80 80'): write-back through the set-valued views (ports, sport) is judged "
                "by meaning and operator only, the duplicate may disappear from the text", "order of Port.ports is not judged (only the set)",
